@@ -52,11 +52,7 @@ Definition mask_pos (mask : list bool) : list nat := filter_idx (fun b : bool =>
 
 (* .loc[boolean Series]: the mask is ALIGNED on the frame's index (looked up by label), rows stay
    in the frame's order; a label missing from the mask's index is an IndexingError *)
-Fixpoint lookup {A} (m : list (Z * A)) (k : Z) : option A :=
-  match m with
-  | [] => None
-  | (l, b) :: r => if l =? k then Some b else lookup r k
-  end.
+Definition lookup {A} (m : list (Z * A)) (k : Z) : option A := loc1 m k.
 Fixpoint loc_mask {T} (m : frame T) (mask : list (Z * bool)) : option (frame T) :=
   match m with
   | [] => Some []
@@ -292,14 +288,8 @@ Definition frame_map {D T} (f : D -> D) (o : tframe D T) : option (tframe D T) :
 (* TsGroup: members (key, member) sorted by key; metadata frame indexed by key                    *)
 Definition tgroup (M T : Type) : Type := (list (Z * M) * frame T)%type.
 
-Fixpoint lookup_all {A} (d : list (Z * A)) (ks : list Z) : option (list (Z * A)) :=
-  match ks with
-  | [] => Some []
-  | k :: r => match lookup d k, lookup_all d r with
-              | Some x, Some o => Some ((k, x) :: o)
-              | _, _ => None
-              end
-  end.
+(* {k: self[k] for k in keys}: the same lookup discipline as .loc, on the member dictionary *)
+Definition lookup_all {A} (d : list (Z * A)) (ks : list Z) : option (list (Z * A)) := loc d ks.
 (* TsGroup(dict data, metadata=DataFrame m): index = np.sort(keys), members reordered, then
    set_info(m), which demands m.index == index (order included) *)
 Definition mk_group {M T} (data : list (Z * M)) (m : frame T) : option (tgroup M T) :=
